@@ -27,6 +27,7 @@ def main(argv):
         shard = json.load(f)
     deadline = time.time() + shard.get("budget_s", 600)
     faulthandler.enable()
+    sys.stdout = open(os.devnull, "w")  # simulations run with verbose=True print progress lines; results travel by file
     faulthandler.dump_traceback_later(shard.get("budget_s", 600) + 120, exit=True)
 
     from vlib import env, coverage
